@@ -169,8 +169,11 @@ func pureLattice(thorough bool, emit func(PureCase) bool) {
 						credit += 2 * anchorSat
 					}
 					axis := func(i int) []int64 {
-						// ... and a wumbo balance above 2^31 sat (no 32-bit arithmetic anywhere)
-						s := map[int64]bool{0: true, 1: true, 100_000: true, 1<<31 + 7: true}
+						s := map[int64]bool{0: true, 1: true, 100_000: true}
+						if thorough || d == dusts[0] {
+							// a wumbo balance above 2^31 sat (no 32-bit arithmetic anywhere)
+							s[1<<31+7] = true
+						}
 						for _, dd := range []int64{d[0], d[1]} {
 							for _, k := range []int64{-1, 0, 1} {
 								s[dd+k] = true
